@@ -14,7 +14,7 @@ if ! git -C $W apply "$D/patch.diff"; then echo "RESULT patch=DOES-NOT-APPLY"; r
 B=ok; (cd $W && go build ./... >/dev/null 2>&1) || B=FAIL
 T=ok; (cd $W && go test -vet=off -count=1 ./pkg/... 2>&1 | grep -q "^FAIL\|^---FAIL\|panic:") && T=FAIL
 echo "== frpsa on the changed tree"
-for P in $PROPS; do /verif/bin/frpsa check -prop $P -repo $W -verif /tmp/ev-mut 2>&1 | grep -E "^(VIOLATED|UNDECIDED|KNOWN|C[0-9]+ quick|ERROR)" | cut -c1-300; done
+for P in $PROPS; do ${BIN:-/verif/bin/frpsa} check -prop $P -repo $W -verif /tmp/ev-mut 2>&1 | grep -E "^(VIOLATED|UNDECIDED|KNOWN|C[0-9]+ quick|ERROR)" | cut -c1-300; done
 cp -r "$D/demo/." $W/ 2>/dev/null
 WITH=pass; for p in $PKGS; do (cd $W && go test -vet=off -count=1 -run "${DEMO_RUN:-.}" $p 2>&1 | grep -q "^FAIL\|panic:") && WITH=fail; done
 git -C $W apply -R "$D/patch.diff"
